@@ -146,7 +146,12 @@ POp(k, t, m, res, lst) ==
           /\ bad' = Flag(~done /\ pres /\ ~unsure, "refused-" \o k)
      ELSE /\ UNCHANGED <<tags, mans, amb>>
           /\ bad' = IF k = "list" THEN Latch(<<ListBad(lst)>>)
-                    ELSE Flag(~AnsOK(IF t # "" THEN t ELSE m, res), k \o "-result")
+                    ELSE LET ref == IF t # "" THEN t ELSE m
+                             want == MResolve(tags, mans, ref) IN
+                         Flag(~AnsOK(ref, res),
+                              k \o (IF ref \in Amb THEN "-result-wrong"
+                                    ELSE IF want = NONE THEN "-result-extra"
+                                    ELSE IF res = NONE THEN "-result-missing" ELSE "-result-wrong"))
   /\ UNCHANGED <<pend, cf>>
 
 PObs(lst, head, get) ==
